@@ -187,7 +187,7 @@ func c08Codec(kind string) []vScanOfferCodec {
 // the history contains an inapplicable operation (it is then a duplicate of a
 // shorter alphabet's history and is not counted).
 func c08RunSynthetic(t *testing.T, c *vkit.Check, cs c08Case) (counted bool) {
-	api := vNewAPI(t, vAPIOpts{setting: vAnsOfflineNet})
+	api := vNewAPI(t, vAPIOpts{virtualNet: true, setting: vAnsOfflineNet})
 	pc := vNewPC(t, api, nil)
 	defer func() { _ = pc.Close() }()
 	counted = true
@@ -263,7 +263,7 @@ type c08PairCase struct {
 }
 
 func c08RunPair(t *testing.T, c *vkit.Check, cs c08PairCase) (counted bool) {
-	api := func() *API { return vNewAPI(t, vAPIOpts{setting: vAnsOfflineNet}) }
+	api := func() *API { return vNewAPI(t, vAPIOpts{virtualNet: true, setting: vAnsOfflineNet}) }
 	pcs := [2]*PeerConnection{vNewPC(t, api(), nil), vNewPC(t, api(), nil)}
 	defer func() { _ = pcs[0].Close(); _ = pcs[1].Close() }()
 	counted = true
